@@ -18,7 +18,7 @@
    regions); compared with the implementation and decided by the oracle of
    harness/props/c19.py on every case of the parser stream. *)
 From Coq Require Import String.
-From YV Require Import PyBase Token PState Parser Expand Exec ExpandSites ExecPlain ExecUnk ExecArgs EnvSites Catalogue.
+From YV Require Import PyBase Token PState Parser Expand Exec ExpandSites ExecPlain ExecUnk ExecArgs EnvSites ClassDecide Tex2txt ClassRange Catalogue.
 Open Scope Z_scope.
 
 Theorem C19_add_once_in_order : forall l name,
@@ -99,6 +99,26 @@ Example C19_environment_example :
   | _ => None end
   = Some ([s2l "ab"], s2l "x  y  ").
 Proof. vm_compute. reflexivity. Qed.
+
+(* end to end through tex2txt(), any packages and options: for a document of
+   the class the reported list is exactly the undeclared control words of its
+   scan, once each, in order of first use *)
+Theorem C19_tex2txt_list_for_the_class :
+  forall is_word files lang multi simple mods latex repl unkn thresh fuel st out,
+  init_parser py_tables (fun f => assoc f files) fuel (init_state py_tables lang multi simple true)
+              (t_builtin py_tables) mods = Ok st ->
+  doc_in_class py_tables (upd_unknowns (upd_extracted st []) []) latex = true ->
+  run_tex2txt py_tables is_word files lang multi simple mods [] latex [] repl unkn thresh fuel
+  = Ok out ->
+  to_unknowns out
+  = fold_left add_unknown (unames (macros st) (fst (Scanner.scan (t_scan py_tables) latex))) [].
+Proof.
+  exact (fun is_word files lang multi simple mods latex repl unkn thresh fuel st out =>
+           tex2txt_class_unknowns py_tables is_word files lang multi simple mods latex repl unkn
+                                  thresh fuel st out (eq_refl true) (fun c => eq_refl)
+                                  (conj eq_refl eq_refl) (eq_refl true) (eq_refl true)).
+Qed.
+Print Assumptions C19_tex2txt_list_for_the_class.
 
 (* a document of the class, run through the main loop *)
 Example C19_class_example :
